@@ -45,6 +45,7 @@ class Prop:
         if form == "sample_sampler":
             sc["sampler"] = ctx.new_source(rng.choice(["cold", "hot"]), prefix="p", maxn=6)
         sc["sources"] = ctx.sources
+        sc["own_sched"] = rng.random() < 0.2
         off = rng.choice([None, None, None, 37, 123, 411])
         if off:
             sc["sub2_t"] = 205 + off
@@ -55,6 +56,16 @@ class Prop:
     def build(self, w, sc):
         f, d = sc["form"], sc["d"]
         s = w.sources[sc["src"]]
+        if sc.get("own_sched") and f in ("debounce", "throttle_with_timeout", "throttle_first", "sample_period"):
+            # the operator is bound to the world's scheduler explicitly and the pipeline is subscribed with another, parked one:
+            # the operator's timers belong on the scheduler it was given
+            from datetime import timedelta
+            from reactivex import Observable
+            from reactivex.scheduler import HistoricalScheduler
+            op = {"debounce": lambda: ops.debounce(float(d), scheduler=w.s), "throttle_with_timeout": lambda: ops.throttle_with_timeout(d, scheduler=w.s),
+                  "throttle_first": lambda: ops.throttle_first(float(d), scheduler=w.s), "sample_period": lambda: ops.sample(float(d), scheduler=w.s)}[f]()
+            inner, other = s.pipe(op), HistoricalScheduler(vt.UTC0 + timedelta(seconds=5000))
+            return Observable(lambda o, s_=None: inner.subscribe(o, scheduler=other))
         if f == "debounce":
             return s.pipe(ops.debounce(float(d)))
         if f == "throttle_with_timeout":
